@@ -219,6 +219,26 @@ func (c *Chain) SendRawTransaction(tx *wire.MsgTx, _ bool) (*chainhash.Hash, err
 	if _, ok := c.Mempool[h]; ok {
 		return nil, chain.ErrTxAlreadyInMempool
 	}
+	// a node refuses a transaction that spends an outpoint another mempool
+	// or best-chain transaction already spends
+	for _, in := range tx.TxIn {
+		for _, m := range c.Mempool {
+			for _, min := range m.TxIn {
+				if min.PreviousOutPoint == in.PreviousOutPoint {
+					return nil, chain.ErrMempoolConflict
+				}
+			}
+		}
+		for _, b := range c.best {
+			for _, t := range b.Transactions {
+				for _, bin := range t.TxIn {
+					if bin.PreviousOutPoint == in.PreviousOutPoint {
+						return nil, chain.ErrMissingInputsOrSpent
+					}
+				}
+			}
+		}
+	}
 	c.Mempool[h] = tx
 	return &h, nil
 }
@@ -232,6 +252,13 @@ func (c *Chain) confirmedLocked(h chainhash.Hash) bool {
 		}
 	}
 	return false
+}
+
+// Evict drops a transaction from the mempool (the node forgot / refused it).
+func (c *Chain) Evict(h chainhash.Hash) {
+	c.mu.Lock()
+	delete(c.Mempool, h)
+	c.mu.Unlock()
 }
 
 // MempoolTxs returns a snapshot of the mempool.
